@@ -170,11 +170,29 @@ func nestedDoc(n, k int) (Map, []Map) {
 func H_C07_subquery() {
 	n := verif.Choose("rows", maxRows(2, 2)+1)
 	k := verif.Choose("nested", 3)
-	form := verif.Choose("form", 8)
+	form := verif.Choose("form", 11)
 	doc, rows := nestedDoc(n, k)
 	c := verif.F64("c")
+	// a second root table for the root- and CTE-sourced correlated subqueries
+	var ws []float64
+	if form >= 8 {
+		var u []any
+		for i := 0; i < 2; i++ {
+			w := verif.F64("w")
+			verif.Assume(w == w)
+			ws = append(ws, w)
+			u = append(u, Map{"w": w})
+		}
+		doc["u"] = u
+	}
 	var sql string
 	switch form {
+	case 8:
+		sql = "SELECT a, (SELECT w FROM `<-u` WHERE w > `<-a`) AS sub FROM t"
+	case 9:
+		sql = "SELECT a FROM t WHERE a IN (SELECT w FROM `<-u` WHERE w >= `<-a`)"
+	case 10:
+		sql = "WITH c AS (SELECT w FROM u) SELECT a, (SELECT w FROM `<-c` WHERE w > `<-a`) AS sub FROM t"
 	case 0:
 		sql = verif.SQL("SELECT a, (SELECT p FROM items WHERE q > ?) AS sub FROM t", c)
 	case 1:
@@ -240,6 +258,24 @@ func H_C07_subquery() {
 			}
 		case 4:
 			want = append(want, Map{"a": a, "root": []any{Map{"g": float64(5)}}})
+		case 8, 10:
+			sub := []any{}
+			for _, w := range ws {
+				if w > a {
+					sub = append(sub, Map{"w": w})
+				}
+			}
+			want = append(want, Map{"a": a, "sub": sub})
+		case 9:
+			in := false
+			for _, w := range ws {
+				if w >= a && w == a {
+					in = true
+				}
+			}
+			if in {
+				want = append(want, Map{"a": a})
+			}
 		}
 	}
 	verif.Assert(verif.Eq(got, want), "equals-standalone")
